@@ -9,6 +9,64 @@ import time
 from . import core, cs_stop
 
 
+def _sharded_run(sc, rs, gen_args, nshards, seed, corpus, timeout):
+    """core.diff_run's sharding with one difference: a shard whose executor or driver output is INCOMPLETE (non-zero exit
+    status, fewer annotated ops than ops given, a line-count mismatch) is a failure of the harness run, not an
+    observation about the tree: it is run once more; only if the second run is incomplete as well it is reported -
+    as harness-crash. Its shard-level pseudo-disagreement (first_diff_line < 0) never becomes a violation."""
+    from concurrent.futures import ThreadPoolExecutor
+    exe = sc.exe(rs["harness"])
+    fields = rs.get("fields")
+
+    def once(i):
+        if i < 0:
+            ops_text = corpus
+        else:
+            p = core.run([exe, "gen", "-seed", str(seed * 1000 + i)] + gen_args, timeout=timeout)
+            if p.returncode != 0:
+                raise RuntimeError("generator failed: " + p.stderr[-2000:])
+            ops_text = p.stdout
+        rc, impl_out, impl_err = core.exec_ops(exe, ops_text, timeout=timeout, args=rs.get("exec_args", ()))
+        ann = [l[2:] for l in impl_out.split("\n") if l.startswith("> ")]
+        rest = "\n".join(l for l in impl_out.split("\n") if not l.startswith("> "))
+        ann_text = "\n".join(ann) + "\n"
+        mrc, model_out, model_err = core.model_ops(rs["driver"], ann_text, timeout=timeout)
+        r = core.compare(ann_text, rest, model_out, fields, shard=i)
+        n_in = sum(1 for l in ops_text.split("\n") if l)
+        why = []
+        if rc != 0:
+            why.append("executor rc=%s: %s" % (rc, impl_err[-1500:]))
+        if mrc != 0:
+            why.append("driver rc=%s: %s" % (mrc, model_err[-1500:]))
+        if len(ann) != n_in:
+            why.append("executor echoed %d of %d op lines" % (len(ann), n_in))
+        shardlevel = [d for d in r.disagreements if d.get("first_diff_line", -1) < 0]
+        for d in shardlevel:
+            why.append(d.get("note") or "shard-level mismatch")
+        r.disagreements = [d for d in r.disagreements if d.get("first_diff_line", -1) >= 0]
+        return r, why
+
+    def one(i):
+        r, why = once(i)
+        if why:
+            r2, why2 = once(i)
+            r2.stats.setdefault("retry", {})["shards_rerun"] = 1
+            if why2:
+                r2.crashes.append({"shard": i, "note": "incomplete harness output on two runs of the shard",
+                                   "first": why[:3], "second": why2[:3]})
+            return r2
+        return r
+
+    total = core.DiffResult()
+    t0 = time.time()
+    idx = ([-1] if corpus else []) + list(range(nshards))
+    with ThreadPoolExecutor(max_workers=core.NCPU) as ex:
+        for r in ex.map(one, idx):
+            total.merge(r)
+    total.wall = time.time() - t0
+    return total
+
+
 def retry_run(sc, rs, tier, seed):
     """Differential run for checks that depend on real time or real scheduling: a case that fails (disagreement or
     direct oracle) is re-executed; it is reported only if it fails on every one of three re-runs (DESIGN 2.6).
@@ -17,8 +75,7 @@ def retry_run(sc, rs, tier, seed):
     par = rs[tier] if tier in rs else rs["quick"]
     gen_args = ["-n", str(par["n"]), "-tier", tier] + rs.get("gen_args", [])
     corpus = core.load_corpus(rs["corpus"]) if rs.get("corpus") else None
-    r = core.diff_run(sc, rs["harness"], rs["driver"], gen_args, par["shards"], seed, fields=rs.get("fields"),
-                      exec_args=rs.get("exec_args", ()), corpus=corpus, timeout=par.get("timeout", 1500))
+    r = _sharded_run(sc, rs, gen_args, par["shards"], seed, corpus, par.get("timeout", 1500))
     retries = rs.get("retries", 3)
 
     def persists(case_ops, want_oracle):
@@ -50,7 +107,10 @@ def retry_run(sc, rs, tier, seed):
             return any(k.get("oracle") == name and re.search(k.get("signature", "$^"), rep) for k in known)
         return all(one(rep) for rep in o["reports"])
 
-    dis = [(d, d.get("first_diff_line", -1) >= 0) for d in r.disagreements]
+    # EVERY disagreement is re-run before it is reported (shard-level ones - truncated or missing output,
+    # first_diff_line < 0 - never get here: _sharded_run re-runs the shard and, if it fails again, reports a
+    # harness-crash, not a correspondence violation)
+    dis = [(d, True) for d in r.disagreements]
     ora = [(o, not is_known(o)) for o in r.oracle_failures]
     # Re-running is for telling a hiccup from a property of the tree. When the first `probe` failing cases all
     # persist, the tree is broken and the remaining failures are kept without spending minutes on re-runs.
@@ -80,7 +140,7 @@ def retry_run(sc, rs, tier, seed):
 
 
 DL_RUN = {"harness": "hdeadline", "driver": "dldrv", "corpus": "deadline", "fields": ["st", "post", "overdue", "rt", "wt", "bl", "rdl"], "custom": retry_run,
-          "quick": {"n": 40, "shards": 12}, "thorough": {"n": 96, "shards": 24}}
+          "quick": {"n": 40, "shards": 12, "timeout": 240}, "thorough": {"n": 96, "shards": 24, "timeout": 600}}
 
 STOP_RUN = {"harness": "hstop", "driver": "stopdrv", "corpus": "stopsim", "fields": ["stop", "opens", "closes", "qa", "qb", "online", "ha", "hb", "wa", "wb", "got", "ra", "rb", "ret", "leak", "attempts", "dialerrs", "panics"] + ["c%d" % i for i in range(64)],
             "custom": retry_run, "quick": {"n": 30, "shards": 12}, "thorough": {"n": 120, "shards": 24}}
